@@ -46,9 +46,39 @@ def generate(streams, tier):
                 q = c01.gen_query(rw, world, ref, allow_virtual=False)
                 ops.append({"op": "bad", "kind": kind, "q": q["q"], "ev": q["ev"], "api": rf.choice(["query", "map"])})
                 continue
-            k = weighted(rw, [("query", 5), ("map", 3), ("repeat", 2), ("map_all", 1)])
+            k = weighted(rw, [("query", 5), ("map", 3), ("repeat", 2), ("map_all", 1), ("variant", 3)])
             if k == "repeat":
                 ops.append({"op": "repeat"})
+                continue
+            lastq = next((o for o in reversed(ops) if o.get("op") in ("query", "map")), None)
+            if k == "variant" and lastq is None:
+                k = "query"
+            if k == "variant":
+                # same question shape (query variables, observed variables, virtual-evidence variables), other values:
+                # what a cache keyed on the shape of a question would confuse
+                q = copy.deepcopy(lastq)
+                for item in q["virt"]:
+                    for _ in range(5):
+                        lik = [rw.choice([0.0, 0.1, 0.25, 0.5, 0.9, 1.0]) for _ in item[1]]
+                        trial = [[v, (lik if v == item[0] else l)] for v, l in q["virt"]]
+                        if ref.prob_evidence(int_evidence(q["ev"]), [(v, l) for v, l in trial]) > 1e-12:
+                            item[1] = lik
+                            break
+                for key in list(q["ev"]):
+                    for s_ in shuffled(rw, range(world["card"][int(key)])):
+                        trial = dict(q["ev"])
+                        trial[key] = s_
+                        if ref.prob_evidence(int_evidence(trial), [(v, l) for v, l in q["virt"]]) > 1e-12:
+                            q["ev"] = trial
+                            break
+                q["op"] = rw.choice(["query", "map"])
+                if not q["virt"] and rw.random() < 0.7:
+                    v = rw.choice([x for x in range(world["n"]) if str(x) not in q["ev"]] or [0])
+                    lik = [rw.choice([0.1, 0.25, 0.5, 0.9, 1.0]) for _ in range(world["card"][v])]
+                    if str(v) not in q["ev"]:
+                        q["virt"] = [[v, lik]]
+                ops.append(q)
+                ctx_variant = True
                 continue
             q = c01.gen_query(rw, world, ref, allow_virtual=rw.random() < virt_rate)
             q["op"] = k
